@@ -268,6 +268,7 @@ def _fork_from_map(x, proc, fields):
         x.fail(f"{what}: no parameter named `parent`")
     t = _fn_text(x, proc, r"pub fn fork_from\s*\(", what).strip()
     out = []
+    via_set_fd = []  # one entry per descriptor-by-descriptor loop: were the limits already copied?
 
     def add(dst, src):
         if dst not in fields:
@@ -329,7 +330,7 @@ def _fork_from_map(x, proc, fields):
                         add(f, f)
             else:
                 x.fail(f"{what}: base expression `..{base}` is neither the fresh-process constructor nor the parent")
-        return out
+        return out, False
 
     # ---- shape (a): default construction followed by assignments
     stmts = _split_stmts(t)
@@ -340,12 +341,37 @@ def _fork_from_map(x, proc, fields):
     if not m1:
         x.fail(f"{what}: first statement `{stmts[0][:70]}` is not `let mut child = Self::with_parent_and_group(p, parent.g)`")
     var = m1.group(1)
-    if tail != var:
-        x.fail(f"{what}: the function does not end in the constructed value `{var}` (tail: `{tail[:40]}`)")
     add("ppid", "@" + m1.group(2))
     add("pgid", m1.group(3))
     v = re.escape(var)
-    for st in stmts[1:]:
+    work = stmts[1:] + [tail]
+    for idx, st in enumerate(work):
+        # a `for (&fd, body) in &parent.fds { child.set_fd(fd, body.clone()).ok(); }` block has no `;` of its own:
+        # peel such blocks off the front of the statement that follows them
+        while True:
+            mf = re.match(r"for\s*\(\s*&?(\w+)\s*,\s*(\w+)\s*\)\s+in\s+&parent\.(\w+)\s*(?=\{)", st)
+            if not mf:
+                break
+            try:
+                blk = _balanced(st, mf.end())
+            except ValueError:
+                x.fail(f"{what}: unbalanced `for` block")
+            k_, b_, fld = mf.group(1), mf.group(2), mf.group(3)
+            body_re = v + r"\.set_fd\(\s*" + re.escape(k_) + r"\s*,\s*" + re.escape(b_) + r"\.clone\(\)\s*\)\.ok\(\)\s*;?"
+            if fld != "fds" or not re.fullmatch(body_re, blk.strip()):
+                x.fail(f"{what}: `for … in &parent.{fld} {{ {blk.strip()[:50]} }}` is not the descriptor-by-descriptor "
+                       "copy `child.set_fd(fd, body.clone()).ok()` the translator understands")
+            # inherited through the accessor: `set_fd` refuses descriptors at or above the child's soft
+            # RLIMIT_NOFILE, which matters iff the child's limits have been copied by now
+            add("fds", "fds")
+            via_set_fd.append(any(d == "resource_limits" for d, _ in out))
+            st = st[mf.end() + len(blk) + 2:].strip()
+        if idx == len(work) - 1:
+            if st != var:
+                x.fail(f"{what}: the function does not end in the constructed value `{var}` (tail: `{st[:40]}`)")
+            continue
+        if not st:
+            continue
         m2 = re.fullmatch(v + r"\.(\w+)\.clone_from\(\s*&parent\.(\w+)\s*\)", st) \
             or re.fullmatch(v + r"\.(\w+)\s*=\s*parent\.(\w+)(?:\.clone\(\))?", st)
         if m2:
@@ -355,7 +381,7 @@ def _fork_from_map(x, proc, fields):
         if m3 and not re.search(r"\bparent\b", m3.group(2)):
             continue  # a fresh value
         x.fail(f"{what}: statement `{st[:70]}` is not an assignment of a parent field the translator understands")
-    return out
+    return out, any(via_set_fd)
 
 
 def fork_maps(x):
@@ -421,7 +447,7 @@ def fork_maps(x):
         cws.append((f, "@system") if e == "system" else (f, _src_field(x, e, "self", "clone_with_system")[0]))
 
     # Process::fork_from
-    pfork = _fork_from_map(x, proc, [f for f, _ in proc_fields])
+    pfork, fds_limit_checked = _fork_from_map(x, proc, [f for f, _ in proc_fields])
 
     audit = _audit(x, env_fields)
     for fld, kd, p, d in audit:
@@ -453,6 +479,11 @@ def fork_maps(x):
     out.append(_pairs_lean("processForkMap", "`Process::fork_from`: (child field written, parent field read; "
                            "`@ppid` = the parameter); every other field keeps the value of "
                            "`Process::with_parent_and_group`", pfork))
+    out.append("/-- Does `Process::fork_from` hand the parent's descriptors to the child one by one through "
+               "`Process::set_fd` AFTER the\n    child's resource limits were copied? (`set_fd` refuses a descriptor at or "
+               "above the soft RLIMIT_NOFILE, so such a\n    copy drops every descriptor above a lowered limit; a wholesale "
+               "`fds.clone()`, or the loop before the limits are\n    copied, does not.) -/\n"
+               f"def forkFdsLimitChecked : Bool := {b(fds_limit_checked)}\n")
     body = ",\n   ".join(f"({lean_s(fld)}, {lean_s(k)}, {lean_s(p)}, {lean_s(d)})" for fld, k, p, d in audit)
     out.append("/-- Static audit (not a theorem): interior-mutability / shared-ownership types found in a type "
                "reachable from a\n    non-`system` field of `Env`: (Env field, kind, path, declaration); `dyn` = opaque trait object. A "
